@@ -94,6 +94,18 @@ CLAIMED["C10"] = dict(
     ref="DESIGN.md section 2 (C06/C10)",
     technique="TLA+ spec + TLC (torn-prefix invariant over all cut points) + exhaustive cut replay and TLC-judged reader outcomes on corrupted/random byte strings")
 
+CLAIMED["C11"] = dict(
+    text="Limited level, stated plainly: TLC cannot observe an out-of-bounds access in C. (1) FJCoreMem.tla carries the raw array indices of the "
+         "native fast path as a ghost variable and AllIndicesInBounds is model-checked exhaustively with the refinement invariants (transcribed guard logic). "
+         "(2) the scenarios TLC generates from that model (scaled to real constants), seeded images with ops on window/page/segment edges and the top of the "
+         "address space, and adversarial Memory-API scripts (overflowing, huge, thousands of segments; set_words beyond the span; any 64-bit address; re-init; "
+         "run without segments) are executed in child processes against an ASan+UBSan build of the CURRENT _fjcore.c: a sanitizer report, signal or dead "
+         "child is the rejected trace, and every image observation is additionally judged by TLC against FJMachine (wrong values without a report are caught).",
+    note="NOT a proof of memory safety of the C source. Trusted: clang's sanitizers as the observation hook; the transcription in FJCoreMem.tla. "
+         "Ownership of Python objects (reference counts) is only exercised, not checked, apart from crashes.",
+    ref="DESIGN.md section 2 (C11) and section 3",
+    technique="TLC model checking of transcribed index guards + sanitizer-observed replay of TLC-generated scenarios, values judged by TLC trace validation")
+
 NOT_YET = {}
 
 
